@@ -22,7 +22,8 @@ use crate::report::{Acc, Check, Tier};
 use crate::util;
 use crate::world::{self, Verdict};
 
-pub const DEVIATIONS: [&str; 21] = [
+pub const DEVIATIONS: [&str; 22] = [
+    "inner-links-in-directory-matched-as-a-pattern",
     "inner-threshold-2-links-disagree",
     "inner-require-fails",
     "co:second-functionary-subdir-missing",
@@ -152,6 +153,10 @@ fn build(dir: &Path, tree: &Tree, devs: &BTreeSet<&str>) -> in_toto::models::Met
         format!("{sn}.{}", k.h.prefix())
     } else if has(devs, "subdir-named-after-step-only") {
         sn.to_string()
+    } else if has(devs, "inner-links-in-directory-matched-as-a-pattern") {
+        // the step name read as a glob pattern also matches this other name: `s?` ~ `sx`, `s[ab]` ~ `sa`, `s*` ~ `s-other`
+        let twin = sn.replace('?', "x").replace("[ab]", "a").replace('*', "-other");
+        format!("{twin}.{}", filed_under.prefix())
     } else if has(devs, "inner-links-in-directory-of-name-before-last-dot") {
         // e.g. step `rel.signed`: links placed in `rel.<prefix>/`
         format!("{}.{}", sn.rsplit_once('.').map(|x| x.0).unwrap_or(sn), filed_under.prefix())
@@ -276,6 +281,7 @@ fn applicable(tree: &Tree, d: &str) -> bool {
     match d {
         "co:second-functionary-subdir-missing" | "co:second-functionary-subdir-disagrees" => tree.co,
         "inner-links-in-directory-of-name-before-last-dot" => tree.step.contains('.'),
+        "inner-links-in-directory-matched-as-a-pattern" => tree.step.contains(['?', '*', '[']),
         "level3-link-missing" | "level3-layout-signed-by-other-key" => tree.levels == 3,
         // with three levels in1's evidence is a sub-layout, link-level deviations on in1 do not apply
         "inner-link-by-unauthorized-key" | "inner-link-by-key-outside-inner-table" | "inner-threshold-2-one-link" | "inner-threshold-2-links-disagree" => tree.levels == 2,
@@ -292,7 +298,7 @@ fn conflict(a: &str, b: &str) -> bool {
     let group = |d: &str| -> u8 {
         match d {
             "inner-signed-by-G-filed-under-F" | "inner-signed-by-unauthorized-G-under-G" => 1,
-            "subdir-named-after-other-key" | "subdir-named-after-step-only" | "inner-links-in-parent-dir" | "inner-links-in-directory-of-name-before-last-dot" => 2,
+            "subdir-named-after-other-key" | "subdir-named-after-step-only" | "inner-links-in-parent-dir" | "inner-links-in-directory-of-name-before-last-dot" | "inner-links-in-directory-matched-as-a-pattern" => 2,
             "inner-link-by-unauthorized-key" | "inner-link-by-key-outside-inner-table" | "inner-link-missing:first" | "inner-threshold-2-one-link" | "inner-threshold-2-links-disagree" => 3,
             _ => 0,
         }
@@ -371,15 +377,55 @@ fn plain_summaries(acc: &mut Acc) {
     }
 }
 
+/// The summary is made of *step* evidence. A layout whose inspection carries the name of its first /
+/// last step (C08's shape S4, run in a worker with a private working directory) must still return
+/// the step's materials, products, command and byproducts.
+fn summary_with_colliding_inspection(acc: &mut Acc) {
+    let case = json!({"shape": "S4", "faults": [], "cmd": "exit0", "rule": "none", "cmd_pos": 0});
+    let r = crate::worker::run_cases("c08", std::slice::from_ref(&case), 120);
+    acc.evaluations += 1;
+    acc.nontrivial += 1;
+    match &r[0] {
+        crate::worker::WorkerResult::Done(out) => {
+            let Some(summary) = out["detail"].get("ok") else {
+                acc.note("layout-with-inspection-named-like-its-step-rejected(one-directional: not judged)");
+                return;
+            };
+            acc.accepting += 1;
+            // the step link of that shape: materials {src: #1}, products {out: #2}, command [true], return value 0
+            let want = serde_json::to_value(world::link("s0", world::arts(&[("src", 1)]), world::arts(&[("out", 2)]))).unwrap();
+            let mut diff = vec![];
+            for f in ["materials", "products", "command", "byproducts"] {
+                if summary[f] != want[f] {
+                    diff.push(f);
+                }
+            }
+            if diff.is_empty() {
+                acc.outcome("summary-of-step-evidence");
+            } else {
+                acc.violation(
+                    &format!("summary-differs:inspection-named-like-step:{}", diff.join("+")),
+                    "the summary of a layout whose inspection carries the name of its step is taken from the inspection's link, not from the step's",
+                    || json!({"inspection_named_like_step": true, "returned": summary, "expected_from_step_link": want}),
+                );
+            }
+        }
+        _ => crate::util::machinery_error("C15: worker for the colliding-name case died"),
+    }
+}
+
 pub fn run(tier: Tier) -> i32 {
     let mut c = Check::new("C15", "model_checking", tier);
     let max_dev = if tier.thorough() { 2 } else { 1 };
     let mut trees = vec![];
-    for step in ["s", "rel.signed", "s p.é"] {
+    for step in ["s", "rel.signed", "s p.é", "s?", "s[ab]", "s*"] {
         for shape in ["s", "s+t", "t0+s", "s-empty-ends"] {
             for n_inner in 1..=3 {
                 for levels in [2, 3] {
                     if !tier.thorough() && (levels == 3 && n_inner == 3 || step != "s" && n_inner == 3) {
+                        continue;
+                    }
+                    if step.contains(['?', '*', '[']) && (shape != "s" || levels == 3 || n_inner > 2) {
                         continue;
                     }
                     if shape == "s-empty-ends" && step != "s" {
@@ -449,6 +495,7 @@ pub fn run(tier: Tier) -> i32 {
     let mut acc = Acc::merge_all(accs.into_iter().map(|(a, _)| a).collect());
     acc.transitions += transitions;
     plain_summaries(&mut acc);
+    summary_with_colliding_inspection(&mut acc);
     crate::envprobe::judge(&mut acc, "C15:", &mut c.extra);
     c.acc = acc;
     c.rule = "state = (outer shape in {delegated step alone, delegated step followed by a step that MATCHes its products, a step followed by the delegated step, delegated step alone whose first inner step has no materials and whose last has no products}, inner sequence of 1..3 steps, 2 or 3 delegation levels, set of active deviations); transition = toggle one deviation starting from the fully valid tree; each state is one in_toto_verify run on a freshly built directory tree; non-trivial = at least one deviation".into();
@@ -458,13 +505,18 @@ pub fn run(tier: Tier) -> i32 {
 }
 
 pub fn replay(case: &Value) -> Value {
+    if case.get("inspection_named_like_step").is_some() {
+        let mut acc = Acc::new();
+        summary_with_colliding_inspection(&mut acc);
+        return json!({"violation": acc.violations.keys().next()});
+    }
     if case.get("plain_steps").is_some() {
         let mut acc = Acc::new();
         plain_summaries(&mut acc);
         return json!({"violation": acc.violations.keys().next()});
     }
     let shape = ["s", "s+t", "t0+s", "s-empty-ends"].into_iter().find(|s| Some(*s) == case["shape"].as_str()).unwrap_or("s");
-    let step = ["s", "rel.signed", "s p.é"].into_iter().find(|s| Some(*s) == case["step"].as_str()).unwrap_or("s");
+    let step = ["s", "rel.signed", "s p.é", "s?", "s[ab]", "s*"].into_iter().find(|s| Some(*s) == case["step"].as_str()).unwrap_or("s");
     let tree = Tree { co: case["co_delegated"].as_bool().unwrap_or(false), step, shape, n_inner: case["inner_steps"].as_u64().unwrap_or(1) as usize, levels: case["levels"].as_u64().unwrap_or(2) as usize };
     let devs: BTreeSet<&'static str> = case["deviations"].as_array().map(|a| a.iter().filter_map(|x| DEVIATIONS.iter().copied().find(|d| Some(*d) == x.as_str())).collect()).unwrap_or_default();
     let dir = util::fresh_dir("c15r");
